@@ -52,6 +52,7 @@ def teamSer (s : Ser X) : Ser (List X) := ⟨TeamOf.save s, TeamOf.load s, TeamO
 structure LayerOf (X : Type) where
   allowed : Nat
   inds : List X
+deriving DecidableEq
 
 def LayerOf.save (s : Ser X) (l : LayerOf X) : Str :=
   showNat l.allowed ++ ' ' :: showNat l.inds.length ++ '\n' :: l.inds.flatMap s.save
